@@ -6,7 +6,8 @@ from sessions import ll_login
 from wsx import Wsx, ExecutorDied
 
 KINDS = ["lib_client", "model_correct", "replay_accepted", "replay_rejected", "stale_challenge", "wrong_key_bit",
-         "wrong_username", "proof_bitflip", "client_data_bitflip", "all_zero", "proof_cancelling_change"]
+         "wrong_username", "proof_bitflip", "client_data_bitflip", "all_zero", "proof_cancelling_change",
+         "client_data_is_server_challenge"]
 RULE = ("per authenticated SrpServer a random history of reconnect attempts over the kinds %s; every attempt is judged: "
         "verdict == (proof == H(U | client_data | challenge-on-offer | K)) with the challenge read through the accessor, and "
         "the challenge after the attempt differs from every earlier challenge of that object. Distinct non-trivial cases = "
@@ -102,6 +103,10 @@ def run_history(w, sc, mon, pair_seen):
                 x[i] ^= bit
                 x[j] ^= bit
                 proof = bytes(x)
+        elif kind == "client_data_is_server_challenge":
+            # aliased inputs: the client echoes the challenge on offer (with a wrong or, sometimes, the right proof)
+            data = cur
+            proof = M.reconnect_proof(un, data, cur, K) if rnd.random() < 0.3 else bytes(rnd.getrandbits(8) for _ in range(20))
         else:
             data, proof = bytes(16), bytes(20)
         r = w.call("srv_reconnect", h=5, data=data, proof=proof)
@@ -142,7 +147,7 @@ def run_history(w, sc, mon, pair_seen):
 def worker(idx, nworkers, tier, seed, extra):
     mon = Monitor()
     rnd = rng_for(seed, "c05", idx)
-    nhist = {"quick": 800, "thorough": 12500}[tier]
+    nhist = {"quick": 800, "thorough": 40000}[tier]
     pair_seen = set()
     w = Wsx()
     try:
